@@ -177,7 +177,16 @@ EXTRA_THEOREMS = {
 TIE_PHASES = [("rs2lean.py", "TranslatedAgree"), ("rs2lean2.py", "TranslatedAgreeB"), ("rs2lean3.py", "TranslatedAgreeC"),
               ("rs2lean4.py", "TranslatedAgreeD"), ("rs2lean5a.py", "TranslatedAgreeE"), ("rs2lean5b.py", "TranslatedAgreeF"),
               ("rs2lean6a.py", "TranslatedAgreeG"), ("rs2lean6b.py", "TranslatedAgreeH"),
-              ("rs2lean6c.py", "TranslatedAgreeI"), ("rs2lean6d.py", "TranslatedAgreeJ"), (None, "TranslatedAgreeJ8")]
+              ("rs2lean6c.py", "TranslatedAgreeI"), ("rs2lean6d.py", "TranslatedAgreeJ"), (None, "TranslatedAgreeJ8"),
+              ("rs2lean7.py", "TranslatedAgreeK")]
+
+# phase 7 (the public dispatchers of the editors and set functions WITH their JSON-text branch, Proofs/TranslatedAgreeK*)
+_K_ED = ["array_insert_whole", "object_insert_whole", "delete_by_index_whole", "delete_by_name_whole", "object_delete_whole", "object_pick_whole",
+         "strip_nulls_whole", "strip_value_nulls_agrees", "concat_whole", "concat_values_agrees"]
+_K_SET = ["array_distinct_whole", "array_intersection_whole", "array_except_whole", "array_overlap_whole"]
+_K_TIE = {"C06": _K_ED, "C07": ["concat_whole", "delete_by_index_whole", "delete_by_name_whole", "strip_nulls_whole"], "C13": _K_SET,
+          "C17": ["array_distinct_whole", "array_insert_whole", "object_insert_whole", "concat_whole", "strip_nulls_whole", "object_delete_whole"],
+          "C10": ["array_length_whole_text", "value_array_length_agrees"], "C11": ["array_length_whole_text", "array_distinct_whole", "concat_whole"]}
 
 # phase 6c (renderer, serde bridge, remaining editors: Proofs/TranslatedAgreeI*), 6d (path parsers / printers: TranslatedAgreeJ*, bridge J8)
 _REN = ["to_string_encodeSpec_agrees", "to_string_encodeSpec_spec", "to_pretty_string_encodeSpec_agrees", "to_pretty_string_encodeSpec_spec", "to_string_agrees", "container_to_string_agrees"]
@@ -232,6 +241,12 @@ _WHOLE = ["get_by_index_whole", "get_by_name_whole", "object_keys_whole", "array
 for _p, _l in {"C05": _ACC + _CASTS, "C11": _WHOLE, "C18": _CASTS, "C07": ["get_by_index_agrees", "get_by_name_agrees", "get_by_keypath_agrees", "object_keys_agrees"],
                "C20": ["get_by_keypath_agrees"]}.items():
     TIE[_p] = TIE[_p] + [x for x in _l if x not in TIE[_p]]
+
+
+for _p, _l in _K_TIE.items():
+    TIE[_p] = TIE[_p] + [x for x in _l if x not in TIE[_p]]
+TIE_SOURCES.update({"value_array_length_agrees": ["src/value.rs::Value::array_length"],
+                    "array_length_whole_text": ["src/functions.rs::array_length", "src/value.rs::Value::array_length"]})
 
 
 def tie_sources(name, functions):
@@ -292,7 +307,7 @@ def stale_closure(gen_dir, unsupported):
 TRUSTED_BASE = [
     "Lean 4.33.0 kernel (thorough tier re-checks the theorem module with leanchecker)",
     "axioms: only propext, Classical.choice, Quot.sound (audited per theorem by #print axioms on every run); no native_decide, no bv_decide, no user axioms, no sorry",
-    "tools/rs2lean.py + rs2lean2.py + rs2lean3.py + rs2lean4.py + rs2lean5a.py + rs2lean5b.py + rs2lean6a.py + rs2lean6b.py + rs2lean6c.py + rs2lean6d.py (translators of about 280 declarations — practically every function of the crate the properties are about of /repo/src to Lean: number codec and order, entry words, index arithmetic, byte walkers, iterators, entry patching, escaper, the recursive Decoder of de.rs and Encoder of ser.rs, the builders of builder.rs and eleven byte-level editors / set functions and 31 read-only accessors and casts, the compare / comparable-key / contains families of functions.rs, the JSONPath selector and the path functions, the JSON text parser with util.rs, the renderer, the serde bridge, the remaining editors, and the JSONPath / key-path parsers and printers over a table nom combinator -> Nom.lean definition; regenerated every run) with lean/JsonbModel/RustPrelude*.lean (hand-written meaning of the Rust primitives they emit: integer casts, checked arithmetic, byte conversions, slices, loops as bounded folds, recursion on explicit fuel, BTreeMap as a sorted list, from_utf8 as validUtf8, OrderedFloat); the agreement theorems tie their output to the model",
+    "tools/rs2lean.py + rs2lean2.py + rs2lean3.py + rs2lean4.py + rs2lean5a.py + rs2lean5b.py + rs2lean6a.py + rs2lean6b.py + rs2lean6c.py + rs2lean6d.py + rs2lean7.py (translators of about 310 declarations — practically every function of the crate the properties are about of /repo/src to Lean: number codec and order, entry words, index arithmetic, byte walkers, iterators, entry patching, escaper, the recursive Decoder of de.rs and Encoder of ser.rs, the builders of builder.rs and eleven byte-level editors / set functions and 31 read-only accessors and casts, the compare / comparable-key / contains families of functions.rs, the JSONPath selector and the path functions, the JSON text parser with util.rs, the renderer, the serde bridge, the remaining editors, the JSONPath / key-path parsers and printers over a table nom combinator -> Nom.lean definition, and the public dispatchers of the editors and set functions with their JSON-text branches; regenerated every run) with lean/JsonbModel/RustPrelude*.lean (hand-written meaning of the Rust primitives they emit: integer casts, checked arithmetic, byte conversions, slices, loops as bounded folds, recursion on explicit fuel, BTreeMap as a sorted list, from_utf8 as validUtf8, OrderedFloat); the agreement theorems tie their output to the model",
     "tools/gen_constants.py (translator constants.rs -> Lean) and the line-protocol glue (lean/JsonbModel/Driver/*.lean, harness/src/wire.rs)",
     "the correspondence check itself: the hand-written implementation model is tied to /repo by sampled differential runs (request stream of this run, see coverage)",
     "modelled, not verified: Rust slice/Vec/integer-cast semantics, BTreeMap ordering, byteorder; the spec layer is my reading of the README and the property text",
